@@ -151,7 +151,13 @@ def stock_case(sc):
     Mz = np.block([[fx[np.ix_(z, z)], fy[z, :]], [gx[:, z], gy]])
     left = np.hstack([fx[np.ix_(d, z)], fy[d, :]])
     right = np.vstack([fx[np.ix_(z, d)], gx[:, d]])
-    As_ref = (fx[np.ix_(d, d)] - left @ np.linalg.solve(Mz, right)) / T[d][:, None]
+    try:
+        As_ref = (fx[np.ix_(d, d)] - left @ np.linalg.solve(Mz, right)) / T[d][:, None]
+    except np.linalg.LinAlgError:
+        # the algebraic block the routine was given is singular (e.g. Jacobians that were never evaluated): nothing the routine
+        # reports can be the reduction of these matrices
+        return dict(rec, n=int(dae.n), nzero_T=int(len(z)), shape_ok=True, as_ok=False, eig_ok=False, count_ok=True, names_ok=True,
+                    counts_partition=True, counts_ok=True, pf_nonneg=True, pf_sum_ok=True, singular_algebraic_block=True)
     As = np.array(matrix(eig.As))
     mu = np.asarray(eig.mu)
     mu_ref = np.linalg.eigvals(As_ref)
